@@ -1687,10 +1687,53 @@ class _BoundVars(ast.NodeTransformer):
         return node
 
 
+class _FoldConst(ast.NodeTransformer):
+    """comparisons of literals, conditional expressions with a literal test, a literal position of a display, a literal key of a
+    dict display (the other entries pure): what a table written into the code evaluates to"""
+    def visit_Compare(self, node):
+        self.generic_visit(node)
+        if len(node.ops) == 1 and isinstance(node.left, ast.Constant) and isinstance(node.comparators[0], ast.Constant) \
+                and type(node.left.value) is type(node.comparators[0].value) and isinstance(node.left.value, (str, int, bytes)) and not isinstance(node.left.value, bool):
+            a, b, op = node.left.value, node.comparators[0].value, node.ops[0]
+            if isinstance(op, ast.Eq):
+                return ast.copy_location(ast.Constant(a == b), node)
+            if isinstance(op, ast.NotEq):
+                return ast.copy_location(ast.Constant(a != b), node)
+        return node
+
+    def visit_IfExp(self, node):
+        self.generic_visit(node)
+        if isinstance(node.test, ast.Constant) and isinstance(node.test.value, bool):
+            return node.body if node.test.value else node.orelse
+        return node
+
+    def visit_Call(self, node):
+        self.generic_visit(node)
+        if isinstance(node.func, ast.Name) and node.func.id == "getattr" and len(node.args) == 2 and not node.keywords and isinstance(node.args[1], ast.Constant) \
+                and isinstance(node.args[1].value, str) and node.args[1].value.isidentifier():
+            return ast.copy_location(ast.Attribute(value=node.args[0], attr=node.args[1].value, ctx=ast.Load()), node)
+        return node
+
+    def visit_Subscript(self, node):
+        self.generic_visit(node)
+        if not isinstance(node.ctx, ast.Load) or not isinstance(node.slice, ast.Constant):
+            return node
+        v, k = node.value, node.slice.value
+        if isinstance(v, (ast.Tuple, ast.List)) and type(k) is int and not any(isinstance(e, ast.Starred) for e in v.elts) and -len(v.elts) <= k < len(v.elts) \
+                and all(norm.is_pure(e, _PURE_EXT) for e in v.elts):
+            return v.elts[k]
+        if isinstance(v, ast.Dict) and v.keys and all(isinstance(x, ast.Constant) for x in v.keys) and all(norm.is_pure(e, _PURE_EXT) for e in v.values):
+            hits = [e for x, e in zip(v.keys, v.values) if type(x.value) is type(k) and x.value == k]
+            if hits:
+                return hits[-1]
+        return node
+
+
 def expr_norm(stmts):
     out = []
     for s in stmts:
         s = _ExprNorm().visit(s)
+        s = _FoldConst().visit(s)
         s = _BoundVars().visit(s)
         out.append(s)
     return out
@@ -1891,7 +1934,8 @@ class Canon:
                 continue
             cname, x = s_.value.func.id, s_.targets[0].id
             c = module.classes.get(cname)
-            if c is None or not cname.startswith("_") or f"class:{cname}" in known or c.is_dataclass or [b_ for b_ in c.node.bases if u(b_) != "object"] \
+            if c is None or not cname.startswith("_") or f"class:{cname}" in known or c.is_dataclass \
+                    or [b_ for b_ in c.node.bases if u(b_) != "object" and u(b_).split("[")[0].split(".")[-1] != "Generic"] \
                     or c.node.keywords or any(n_.startswith("__") and n_ not in ("__init__",) for n_ in c.methods) \
                     or any(m_.decorator_list for m_ in c.methods.values()):
                 continue
@@ -2159,8 +2203,109 @@ class Canon:
         stmts = [P().visit(s_) for s_ in stmts]
         if not hit[0]:
             return stmts
-        stmts = norm.split_parallel_assign(stmts)
-        counter = [0]
+        return self.name_helper_receivers(norm.split_parallel_assign(stmts), module)
+
+    def run_on_fresh_records(self, stmts, module):
+        """x = _Rec(a, b); x.m(c)    with _Rec a private NamedTuple / dataclass record the tables do not know and m a method that only
+        runs statements over the fields (no value returned): m's body with the fields written in -- a "command object" applied on the
+        spot.  The binding of x is dropped when nothing reads x before it is bound again."""
+        known = known_defs()
+
+        def record_fields(call):
+            if not (isinstance(call, ast.Call) and isinstance(call.func, ast.Name)):
+                return None, None
+            c = module.classes.get(call.func.id)
+            if c is None or not call.func.id.startswith("_") or f"class:{call.func.id}" in known \
+                    or any(n_ in c.methods for n_ in ("__init__", "__post_init__", "__new__", "__getattr__", "__setattr__", "__getattribute__")):
+                return None, None
+            is_nt = any(u(b_).split(".")[-1] == "NamedTuple" for b_ in c.node.bases)
+            if not (is_nt or c.is_dataclass):
+                return None, None
+            vals = self._record_fields(call, module, getattr(self, "_cur_cls", None)) if c.is_dataclass else None
+            if is_nt:
+                params = [f.name for f in c.fields if not f.classvar]
+                if any(isinstance(a, ast.Starred) for a in call.args) or any(k.arg is None or k.arg not in params for k in call.keywords) or len(call.args) > len(params):
+                    return None, None
+                vals = dict(zip(params, call.args))
+                vals.update({k.arg: k.value for k in call.keywords})
+                for f in c.fields:
+                    if f.name not in vals and f.node.value is not None and isinstance(f.node.value, ast.Constant):
+                        vals[f.name] = f.node.value
+                if set(vals) != set(params):
+                    return None, None
+            if vals is None or not all(norm.is_pure(v, _PURE_EXT) for v in vals.values()):
+                return None, None
+            return c, vals
+
+        def block(b):
+            b = list(b)
+            for s_ in b:
+                for fld in ("body", "orelse", "finalbody"):
+                    bb = getattr(s_, fld, None)
+                    if isinstance(bb, list) and bb and isinstance(bb[0], ast.stmt) and not isinstance(s_, (ast.FunctionDef, ast.AsyncFunctionDef, ast.ClassDef)):
+                        setattr(s_, fld, block(bb))
+                if isinstance(s_, ast.Try):
+                    for h in s_.handlers:
+                        h.body = block(h.body)
+            i = 0
+            while i + 1 < len(b):
+                a_, e_ = b[i], b[i + 1]
+                if isinstance(a_, ast.Assign) and len(a_.targets) == 1 and isinstance(a_.targets[0], ast.Name) and isinstance(e_, ast.Expr) \
+                        and isinstance(e_.value, ast.Call) and isinstance(e_.value.func, ast.Attribute) and isinstance(e_.value.func.value, ast.Name) \
+                        and e_.value.func.value.id == a_.targets[0].id and not e_.value.keywords and not any(isinstance(x, ast.Starred) for x in e_.value.args):
+                    x = a_.targets[0].id
+                    c, vals = record_fields(a_.value)
+                    m = c.methods.get(e_.value.func.attr) if c is not None else None
+                    if m is not None and not m.decorator_list and len(m.args.args) == len(e_.value.args) + 1 and not m.args.vararg and not m.args.kwarg \
+                            and not _contains(m, (ast.Yield, ast.YieldFrom, ast.Await, ast.Return)) and all(norm.is_pure(v, _PURE_EXT) for v in e_.value.args):
+                        sn = m.args.args[0].arg
+                        sub = dict(zip([p_.arg for p_ in m.args.args[1:]], e_.value.args))
+                        body = [copy.deepcopy(y) for y in real_body(m)]
+                        ok = [True]
+
+                        class F(ast.NodeTransformer):
+                            def visit_Attribute(self, node):
+                                if isinstance(node.value, ast.Name) and node.value.id == sn:
+                                    if node.attr in vals and isinstance(node.ctx, ast.Load):
+                                        return copy.deepcopy(vals[node.attr])
+                                    ok[0] = False
+                                    return node
+                                return self.generic_visit(node)
+
+                            def visit_Name(self, node):
+                                if node.id == sn:
+                                    ok[0] = False
+                                return node
+                        body = [F().visit(y) for y in body]
+                        if ok[0] and not (norm._assigned_names(body) & ({x} | {n.id for v in list(vals.values()) + list(sub.values()) for n in ast.walk(v) if isinstance(n, ast.Name)})):
+                            body = [norm._Subst(dict(sub)).visit(y) for y in body] if sub else body
+                            # is x read again before it is bound again?
+                            later = b[i + 2:]
+                            read_first = False
+                            for y in later:
+                                loads = any(isinstance(n, ast.Name) and n.id == x and isinstance(n.ctx, ast.Load) for n in ast.walk(y))
+                                if loads:
+                                    read_first = True
+                                    break
+                                if isinstance(y, ast.Assign) and len(y.targets) == 1 and isinstance(y.targets[0], ast.Name) and y.targets[0].id == x:
+                                    break
+                                if x in norm._assigned_names([y]):
+                                    read_first = True       # (bound somewhere inside: be careful)
+                                    break
+                            for y in body:
+                                ast.copy_location(y, e_)
+                                ast.fix_missing_locations(y)
+                            b[i:i + 2] = ([a_] if read_first else []) + body
+                            continue
+                i += 1
+            return b
+        return block(stmts)
+
+    def name_helper_receivers(self, stmts, module):
+        """_Helper(args).m(..)  with _Helper a private class of the module the tables do not know: `t = _Helper(args); t.m(..)`"""
+        known = known_defs()
+        self._nhr = getattr(self, "_nhr", 0)
+        counter = [self._nhr]
 
         def helper_ctor(e):
             return isinstance(e, ast.Call) and isinstance(e.func, ast.Name) and e.func.id.startswith("_") and e.func.id in module.classes \
@@ -2196,7 +2341,9 @@ class Canon:
                         out += pre
                 out.append(s_)
             return out
-        return block(stmts)
+        res = block(stmts)
+        self._nhr = counter[0]
+        return res
 
     def _project_helper_objects(self, stmts, module, whole=None):
         """x = _Helper(a, b)  with _Helper a private dataclass the tables do not know (a record introduced by a refactoring):
@@ -2381,6 +2528,8 @@ class Canon:
             level = dict(k_.class_assigns)
             if not k_.is_dataclass:
                 level.update({f.name: f.node.value for f in k_.fields if f.node.value is not None})
+            else:
+                level.update({f.name: f.node.value for f in k_.fields if f.node.value is not None and f.classvar})      # ClassVar: not a field
             for name, v in level.items():
                 if name in consts or not (name.startswith("_") and not name.startswith("__")) or any(f"{b_.name}.{name}" in known for b_ in cls.mro) \
                         or any(f"cconst:{b_.name}.{name}" in known for b_ in cls.mro):
@@ -3942,11 +4091,26 @@ class Canon:
         b = inl.tail_generator_delegation(b, (fn.name,))
         b = inl.rec(b, inl.depth, (fn.name,))
         b = [x for x in (_StripAnn().visit(s_) for s_ in b) if not isinstance(x, ast.Pass)] or b      # (bare declarations of inlined helpers)
+        # a loop over generator helpers that only appeared when a driver (`_carry_out(steps)`) was inlined
+        if any(isinstance(n, ast.For) and isinstance(n.iter, (ast.Call, ast.Name)) for s_ in b for n in ast.walk(s_)):
+            b_g = inline_generator_loops([copy.deepcopy(x) for x in b], look)
+            if ast.dump(ast.Module(body=b_g, type_ignores=[])) != ast.dump(ast.Module(body=b, type_ignores=[])):
+                b = inl.rec(lift_walrus(lift_ifexp(b_g)), inl.depth, (fn.name,))
+        b = self.run_on_fresh_records(b, module)
+        # helper objects that only appeared when a helper was inlined (`self._left()` -> `_Half(self.fwd, self.bck)`): named, taken apart
+        if any(isinstance(n, ast.Attribute) and isinstance(n.value, ast.Call) and isinstance(n.value.func, ast.Name) and n.value.func.id.startswith("_")
+               and n.value.func.id in module.classes for s_ in b for n in ast.walk(s_)):
+            b1 = self.name_helper_receivers(b, module)
+            b1, look1 = self._sroa(b1, module, look)
+            if look1 is not look:
+                inl1 = Inliner(look1)
+                b = inl1.rec(b1, inl1.depth, (fn.name,))
+                b = [x for x in (_StripAnn().visit(s_) for s_ in b) if not isinstance(x, ast.Pass)] or b
         b2 = inl.tail_generator_delegation(b, (fn.name,))      # .. reached through a plain helper that was just inlined
         if b2 is not b:
             b = inl.rec(lift_walrus(lift_ifexp(b2)), inl.depth, (fn.name,))
         b = self._inline_unknown_constants(b, module, fn)      # .. those read by the helpers that were just inlined
-        b = self._inline_class_constants(b, cls)
+        b = [ast.fix_missing_locations(_FoldConst().visit(s_)) for s_ in self._inline_class_constants(b, cls)]
         b = self._fold_constant_lengths(b, module, fn)
         b = norm.merge_display_building(b)
         b = self.sink_record_tail(b, module)
@@ -3957,7 +4121,7 @@ class Canon:
         b = lift_walrus(lift_ifexp(b))          # conditional expressions returned by inlined helpers
         used = {n.id for s in b for n in ast.walk(s) if isinstance(n, ast.Name)} | {n.func.id for s in b for n in ast.walk(s) if isinstance(n, ast.Call) and isinstance(n.func, ast.Name)}
         b = [s for s in b if not (isinstance(s, ast.FunctionDef) and s.name not in used)]
-        b = norm.unroll_literal_loops(b)
+        b = [ast.fix_missing_locations(_FoldConst().visit(s_)) for s_ in norm.unroll_literal_loops(b)]      # (rows of a table written in for the loop variable)
         b = norm.map_pushdown(norm.extend_to_augassign(b), pure_calls=_PURE_EXT)
         b = norm.split_parallel_assign(norm.merge_display_building(b))
         b = norm.default_then_override(b)
@@ -4000,6 +4164,7 @@ class Canon:
                 b = _drop_dead_temps(norm.forward_subst(rotate_loops(polarity(b3), _PURE_EXT), pure_calls=_PURE_EXT))
             b = norm.normalise_loops(b)
             b2 = norm.unroll_literal_loops(norm.fuse_for_over_comp(b, pure_calls=_PURE_EXT))
+            b2 = [ast.fix_missing_locations(_FoldConst().visit(s_)) for s_ in b2]
             if ast.dump(ast.Module(body=b2, type_ignores=[])) != ast.dump(ast.Module(body=b, type_ignores=[])):
                 b2 = self._project_nested(b2, module)       # records a comprehension built for the loop (now bound per iteration)
                 b = _drop_dead_temps(norm.forward_subst(b2, pure_calls=_PURE_EXT))
